@@ -22,15 +22,17 @@ const (
 	EV_KEY_REPEAT  = 2
 )
 
-// keyID identifies a hardware key: key codes are scoped to the sub-handler that reports them,
-// two sub-handlers of one device may report the same code.
+// keyID identifies a hardware key: key codes are scoped to the event node that reports them. Two nodes of one device
+// may report the same code, under different sub-handler names or - two pads of one model behind one adapter - under the
+// same name.
 type keyID struct {
 	subHandler string
+	event      string
 	code       evdev.EvCode
 }
 
 func keyOf(ev *input.InputEvent) keyID {
-	return keyID{subHandler: ev.Source.Name, code: ev.Event.Code}
+	return keyID{subHandler: ev.Source.Name, event: ev.Source.DeviceInfo.Event(), code: ev.Event.Code}
 }
 
 type Device struct {
@@ -57,7 +59,7 @@ type Device struct {
 	// used to track active occurrence number for given channel/note for purpose of handling clashed notes.
 	// more info in hidi.toml at "collision_mode" option.
 	activeNotesCounter map[byte]map[byte]int // map[channel]map[note]occurrence_number
-	lastAnalogValue    map[string]map[evdev.EvCode]float64
+	lastAnalogValue    map[string]float64    // per axis of an event node (the identifier of handleABSEvent)
 
 	actionTracker map[config.Action]bool
 	ccZeroed      map[byte]bool // 1: positive, 2: negative
@@ -99,18 +101,6 @@ func NewDevice(
 		inmap[i] = make(map[byte]bool)
 	}
 
-	var subhandlers = make(map[string]interface{})
-	for _, mapping := range cfg.Config.KeyMappings {
-		for subhandler := range mapping.Analog {
-			subhandlers[subhandler] = true
-		}
-	}
-
-	var lastAnalogValue = make(map[string]map[evdev.EvCode]float64)
-	for subhandler := range subhandlers {
-		lastAnalogValue[subhandler] = make(map[evdev.EvCode]float64)
-	}
-
 	actionsPress := map[config.Action]func(*Device){
 		config.Panic:        (*Device).Panic,
 		config.MappingUp:    (*Device).MappingUp,
@@ -148,7 +138,7 @@ func NewDevice(
 		activeNotesCounter: activeNoteCounter,
 		actionTracker:      make(map[config.Action]bool, 16),
 		ccZeroed:           make(map[byte]bool, 32),
-		lastAnalogValue:    lastAnalogValue,
+		lastAnalogValue:    make(map[string]float64, 16),
 
 		actionsPress:   actionsPress,
 		actionsRelease: actionsRelease,
@@ -254,7 +244,12 @@ func (d *Device) NoteOn(ev *input.InputEvent) {
 }
 
 func (d *Device) NoteOff(ev *input.InputEvent) {
-	noteAndChannel, ok := d.noteTracker[keyOf(ev)]
+	d.noteOff(keyOf(ev), ev)
+}
+
+// noteOff releases what the key has sounding; ev is only used for logging
+func (d *Device) noteOff(key keyID, ev *input.InputEvent) {
+	noteAndChannel, ok := d.noteTracker[key]
 	if !ok {
 		return
 	}
@@ -265,18 +260,18 @@ func (d *Device) NoteOff(ev *input.InputEvent) {
 	case config.CollisionOff:
 		event = midi.NoteEvent(midi.NoteOff, channel, note, 0)
 		d.outputEvents <- event
-		delete(d.noteTracker, keyOf(ev))
+		delete(d.noteTracker, key)
 		if !d.noLogs {
 			log.Info(event.String(), d.logFields(logger.Keys, zap.String("handler_event", ev.Source.DeviceInfo.Event()))...)
 		}
 	case config.CollisionNoRepeat, config.CollisionRetrigger, config.CollisionInterrupt:
 		if d.activeNotesCounter[channel][note] != 1 {
-			delete(d.noteTracker, keyOf(ev))
+			delete(d.noteTracker, key)
 			break
 		}
 		event = midi.NoteEvent(midi.NoteOff, channel, note, 0)
 		d.outputEvents <- event
-		delete(d.noteTracker, keyOf(ev))
+		delete(d.noteTracker, key)
 		if !d.noLogs {
 			log.Info(event.String(), d.logFields(logger.Keys, zap.String("handler_event", ev.Source.DeviceInfo.Event()))...)
 		}
